@@ -61,7 +61,7 @@ def judge(res, cfg, steps, out, tag):
             fields = set()
             for k in changed:
                 for f in before[k]:
-                    if strict(before[k][f]) != strict(after[k][f]):
+                    if strict(before[k].get(f)) != strict(after[k].get(f)):
                         fields.add(f)
             what = "node-lost" if lost else ("node-appeared" if extra else "attr:" + ",".join(sorted(fields)))
             res.violation(f"stop-loses:{what}:{tag}", f"after stop()+restart (step {idx}): lost nodes {lost}, extra {extra}, changed {changed} {sorted(fields)}",
